@@ -39,13 +39,14 @@ P['C14'] = dict(
 P['C13'] = dict(
   design_ref='DESIGN.md section 3 C13',
   level_text='For every instance inside the bounds the solver shows on the real TransportationProblem / successive-shortest-path code: solve() returns without throwing, allocations are non-negative, every source is fully allocated, no sink exceeds its capacity, and the total cost is minimal against an arbitrary symbolic competitor plan; toAssignment gives each source a sink receiving most of it; also after increaseCapacity. Family A: costs symbolic in the documented fixed-point range, quantities enumerated; family B: quantities symbolic, costs enumerated. Inductive argument for larger instances (T, S): from an ARBITRARY optimal intermediate state of the solver with 3 sinks (symbolic costs, any sources present in the full sinks, optimality given by symbolic sink potentials) updateTree() yields the true shortest move-chain costs with parents realising them (Bellman conditions), and one sendSource(src, bestSink(src), q) of a new source keeps the books (allocations, remaining capacities) and leaves a tree that satisfies the same conditions for the NEW state, whether or not the code recomputed it - the shortest-chain invariant on which the minimality of successive shortest paths rests is inductive.',
-  text=dict(bounds=dict(quick='family A: <=2 sources x <=2 sinks, capacities/demands enumerated 1..2, integer costs symbolic in [0, INT_MAX/4/sinks]; family B: 2x2, costs enumerated 0..2, quantities symbolic 1..6 (the number of solver paths grows with the quantity range: the algorithm is pseudo-polynomial); T: 3 sinks (1 or 2 full), 2 sources each present or not in each sink, costs symbolic; S: 3 sinks of which 2 full, 2 sources present or not in each full sink + 1 new source of demand 1..2, free capacities 1..2',
+  text=dict(bounds=dict(quick='family A: <=2 sources x <=2 sinks, capacities/demands enumerated 1..2, integer costs symbolic in [0, INT_MAX/4/sinks]; family B: 2x2, costs enumerated 0..2, quantities symbolic 1..6 (the number of solver paths grows with the quantity range: the algorithm is pseudo-polynomial); Q: toAssignment on an arbitrary allocation matrix, <=2 sources x <=3 sinks, shares symbolic 0..2^40; T: 3 sinks (1 or 2 full), 2 sources each present or not in each sink, costs symbolic; S: 3 sinks of which 2 full, 2 sources present or not in each full sink + 1 new source of demand 1..2, free capacities 1..2',
                         thorough='family A: <=3 sources x <=3 sinks, quantities 1..2; family B: 2x2 quantities symbolic 1..16, 3x2 quantities 1..6 costs 0..1; T: 3 sources; S: also 1 full sink'),
             outside='end-to-end optimality for more than 3 sources or sinks (the property quantifies up to 16 sinks; larger instances are only covered through the 3-sink inductive step, whose extension to more sinks is not checked); float cost constructor (scaling kernel only, see C07); quantities above the enumerated range in family A'),
   assumptions=STD_ASSUME + ['precondition: total demand <= total capacity (possibly after increaseCapacity), positive demands/capacities, costs within [0, INT_MAX/4/nbSinks] as produced by costsFromIntegers', 'competitor plans are integral (sufficient: transportation polytope is integral)'],
   harnesses=[
     dict(name='H13A', src='C13_transport.cpp', covers=['precondition holds', 'end'], defines={'VCAP': 6, 'NS': 2, 'NK': 2, 'QMAX': 2, 'FAMILY_A': None}, cfg=dict(fp='exact'),
          thorough=dict(defines={'NS': 3, 'NK': 3})),
+    dict(name='H13Q', src='C13_transport.cpp', covers=['precondition holds', 'end'], defines={'VCAP': 6, 'ASSIGNONLY': None}, cfg=dict(fp='exact')),
     dict(name='H13T', src='C13_tree.cpp', covers=['state built', 'end'], defines={'VCAP': 8, 'NSRC': 2}, cfg=dict(fp='exact', time_budget=120), thorough=dict(defines={'NSRC': 3})),
     dict(name='H13S', src='C13_tree.cpp', covers=['state built', 'sent', 'end'], defines={'VCAP': 8, 'NSRC': 3, 'SENDSTEP': None, 'MINFULL': 2}, cfg=dict(fp='exact', time_budget=150), thorough=dict(defines={'MINFULL': 1})),
     dict(name='H13B', src='C13_transport.cpp', covers=['precondition holds', 'end'], defines={'VCAP': 6, 'NS': 2, 'NK': 2, 'CRANGE': 3, 'QLIM': 6, 'FAMILY_B': None}, cfg=dict(fp='exact', merge=False),
@@ -156,7 +157,7 @@ P['C02'] = dict(
 P['C05'] = dict(
   design_ref='DESIGN.md section 3 C05',
   level_text='One-pass induction on the real DetailedPlacer: from an ARBITRARY legal placement of a tiny circuit (symbolic x positions and row width; rows N/N or N/FS; one cell optionally with SAME polarity so that its orientation and pin offsets change with the row) each pass primitive (swaps in a row, amplified swaps between rows, inserts in a row, inserts between rows) leaves a placement whose incremental value did not increase, whose REAL half-perimeter wirelength (public hpwl() with orientation-dependent pin offsets, after export) is not above the value before the pass, and which is legal. The shift pass (H05S) is executed under the network-simplex contract (optimal dual solution = dual feasible + complementary primal flow): it never increases the wirelength and the incremental value equals the real wirelength afterwards. The row reordering pass (H05R, real RowReordering on a four-cell window over two rows) never increases the wirelength either. Successive callbacks and the final result of placeDetailed are compositions of such passes.',
-  text=dict(bounds=dict(quick='3 row-high cells (widths 3,6,3) on 2 rows; x of cell 0 symbolic in [0,40] and its row enumerated, x of the others enumerated in {0,9}; row width symbolic 12..40; 1 net; polarity of cell 0 in {ANY,SAME}; 4 pass primitives', thorough='2 nets (2 and 3 pins), other cells x in {0,9,18,27}, 2 pin-offset sets'),
+  text=dict(bounds=dict(quick='3 row-high cells (widths 3,6,3) on 2 rows; x of cell 0 symbolic in [0,40] and its row enumerated, x of the others enumerated in {0,9}; row width symbolic 12..40; 1 net (3 pins, one cell repeated with pins at both ends); polarity of cell 0 in {ANY,SAME}; 4 pass primitives', thorough='2 nets (2 and 3 pins), other cells x in {0,9,18,27}, 2 pin-offset sets'),
             outside='reordering pass; more cells; end-to-end composition is argued by induction, not executed'),
   assumptions=STD_ASSUME + [BOOST_ASSUME, LEMON_ASSUME],
   harnesses=[
@@ -197,8 +198,8 @@ P['C11'] = dict(
 P['C16'] = dict(
   design_ref='DESIGN.md section 3 C16',
   level_text='Solver-checked on the real density grid code: (A) DensityGrid(binSize, regions) for symbolic disjoint regions: bin limits span and tile the bounding box, every bin capacity equals the free area inside the bin (independent overlap oracle), the bins account for all free area. (R) one DensityLegalizer::reoptimize step on an arbitrary group of bins (square, line, zig-zag; groups without any capacity included) from an arbitrary distribution of the cells, all float costs unconstrained: every cell stays in exactly one bin and check() passes; (F) DensityGrid::fromIspdCircuit on rows cut by two fixed macros at symbolic places: the bins account exactly for the free row area after the side margin and no bin is negative; (RO) the same step directed into over-full windows (more demand than the window holds: the capacity-increase path of the transportation problem). (B) HierarchicalDensityPlacement under every sequence of up to N operations from {refineX, refineY, coarsenX, coarsenY, redistribution between adjacent bins}: its own check() asserts hold, capacity aggregates exactly, every cell of non-zero (symbolic) demand is in exactly one bin, zero-demand cells in none, the cell-to-bin map is consistent.',
-  text=dict(bounds=dict(quick='A: <=2 row regions of height 8 at y in {0,8,16} (a vertical gap is possible) with symbolic x extents in [-30,30], bin size 4 or 7, <=3x3 bins; F: 1 or 2 rows of width 70, macros of width 1..12 and 6 at symbolic x, margin 5, bin size 10; R/RO: 6x2 bins with a zero-capacity block, 3 cells of symbolic demand 1..30; B: grids 1..4 x 1..2 bins, 3 cells with symbolic demand, 3 operations', thorough='B: 4 operations'),
-            outside='the float claim that spread coordinates lie inside the bin is declined: the linear error model cannot close it (reported as not proved, harness H16S kept in the source for reference); whole rough-legalization runs only in the thorough tier (H16C, time-bounded); larger grids'),
+  text=dict(bounds=dict(quick='A: <=2 row regions of height 8 at y in {0,8,16} (a vertical gap is possible) with symbolic x extents in [-30,30], bin size 4 or 7, <=3x3 bins; F: 1 or 2 rows of width 70, macros of width 1..12 and 6 at symbolic x, margin 5, bin size 10; R/RO: 6x2 bins with a zero-capacity block, 3 cells of symbolic demand 1..30; B: grids 1..4 x 1..2 bins, 3 cells with symbolic demand, 3 operations; SC: spreadCoordX on 1x1 / 2x1 bins, 3 cells, 4 concrete demand vectors, targets symbolic in [-1e6,1e6]', thorough='B: 4 operations'),
+            outside='the float claim that spread coordinates lie inside the bin is decided for four concrete demand vectors (macro-sized ones whose sum passes 2^31 included) with symbolic targets only (H16SC); with symbolic demands the linear error model cannot close it (harness H16S kept in the source for reference, not registered); whole rough-legalization runs only in the thorough tier (H16C, time-bounded); larger grids'),
   assumptions=STD_ASSUME + ['regions (rows) are pairwise disjoint'],
   harnesses=[
     dict(name='H16A', src='C16_density.cpp', covers=['grid built', 'end'], defines={'VCAP': 8, 'H16A': None, 'NREG': 2, 'YCH': 3}, cfg=dict(fp='havoc'), split=3, ir_srcs=ALL_IR, native_srcs=ALL_IR, native_flags=['-llemon']),
